@@ -108,4 +108,100 @@ int c16_registerNatives ()
 static int c16_nativesRegistered = c16_registerNatives ();
 }
 #include "ops_c16.h"
-int main (int argc, char** argv) { return symns::sym_main (argc, argv); }
+
+// `tvin`: C++-side translator validation on GIVEN inputs (stdin: "<Fn> v v v ..." per line; strtod, hex floats allowed): the extracted tree vs
+// the real instantiation at double and (inputs rounded) at float, bit for bit, plus the leaf of the tree each input reaches.
+// tools/props/c16.py feeds directed inputs (empty boxes per axis, frusta equal except in one field, zero-length rays and normals, tangent
+// objects) and obliges that every REACHABLE leaf of every branching tree is compared.  `unreach_literal_length` counts the paths on which
+// `length (literal non-zero vector) == 0` is TRUE (the near / far normals (0,0,+-1), the axis normals of the orthographic planes ()): no input
+// reaches them; recomputed from the current tree.
+struct TvinEntry { const char* name; void (*d) (symns::Ctx<double>&); void (*f) (symns::Ctx<float>&); };
+#define TVIN(ident, nm) {nm, &X_##ident::run<double>, &X_##ident::run<float>}
+#define TVIN_D(ident, nm) {nm, &X_##ident::run<double>, nullptr}
+#define TVIN_BOTH(ident, nm) TVIN (ident##_persp, nm "_persp"), TVIN (ident##_ortho, nm "_ortho")
+static const TvinEntry tvinEntries[] = {
+    TVIN_BOTH (degenerate, "Frustum.degenerate"), TVIN_BOTH (setFov, "Frustum.setFov"), TVIN (ctorFov, "Frustum.ctorFov"),
+    TVIN (modifyNearAndFar_persp, "Frustum.modifyNearAndFar_persp"), TVIN (eq_persp_persp, "Frustum.eq_persp_persp"),
+    TVIN (eq_ortho_ortho, "Frustum.eq_ortho_ortho"), TVIN (eq_persp_ortho, "Frustum.eq_persp_ortho"), TVIN (eq_ortho_persp, "Frustum.eq_ortho_persp"),
+    TVIN_D (dtzE_persp, "Frustum.DepthToZExc_persp_3_10"), TVIN_D (dtzE_ortho, "Frustum.DepthToZExc_ortho_3_10"),
+    TVIN_BOTH (projectScreenToRay, "Frustum.projectScreenToRay"), TVIN (projectPointToScreen_persp, "Frustum.projectPointToScreen_persp"),
+    TVIN_BOTH (planes, "Frustum.planes"), TVIN_BOTH (ft_isVisiblePoint, "FrustumTest.isVisiblePoint"),
+    TVIN_BOTH (ft_isVisibleSphere, "FrustumTest.isVisibleSphere"), TVIN_BOTH (ft_isVisibleBox, "FrustumTest.isVisibleBox"),
+    TVIN_BOTH (ft_containsSphere, "FrustumTest.completelyContainsSphere"), TVIN_BOTH (ft_containsBox, "FrustumTest.completelyContainsBox")};
+static int tvin (int argc, char** argv)
+{
+    using namespace symns;
+    for (int i = 1; i + 1 < argc; ++i)
+        if (std::string (argv[i]) == "--idx") loadIndex (argv[i + 1]);
+    std::map<std::string, FnRecord*> recs;
+    for (auto& e : entries ()) { FnRecord* r = explore (e); recs[r->name] = r; }
+    std::map<std::string, std::set<size_t>> hit;
+    std::map<std::string, long> n;
+    long bad = 0, evals = 0;
+    std::string line;
+    while (std::getline (std::cin, line))
+    {
+        std::istringstream is (line); std::string fn, t; is >> fn;
+        if (fn.empty ()) continue;
+        std::vector<double> in;
+        while (is >> t) in.push_back (strtod (t.c_str (), nullptr));
+        const TvinEntry* te = nullptr;
+        for (auto& e : tvinEntries) if (fn == e.name) te = &e;
+        if (!te || !recs.count (fn)) { printf ("TVINERR %s unknown\n", fn.c_str ()); ++bad; continue; }
+        FnRecord* r = recs[fn];
+        size_t nin = 0;
+        for (auto& p : r->params) nin += p.vars.size ();
+        if (in.size () != nin) { printf ("TVINERR %s arity need=%zu got=%zu\n", fn.c_str (), nin, in.size ()); ++bad; continue; }
+        std::vector<float> inf (in.begin (), in.end ());
+        std::string d; size_t leaf = (size_t) -1;
+        ++n[fn]; ++evals;
+        if (!tvOne<double> (*r, te->d, in, d, &leaf)) { ++bad; printf ("TVFAIL double %s :: %s :: in=%s\n", fn.c_str (), d.c_str (), line.c_str ()); }
+        if (leaf != (size_t) -1) hit[fn].insert (leaf);
+        if (te->f)
+        {
+            leaf = (size_t) -1; ++evals;
+            if (!tvOne<float> (*r, te->f, inf, d, &leaf)) { ++bad; printf ("TVFAIL float %s :: %s :: in=%s\n", fn.c_str (), d.c_str (), line.c_str ()); }
+            if (leaf != (size_t) -1) hit[fn].insert (leaf);
+        }
+    }
+    for (auto& e : tvinEntries)
+    {
+        if (!recs.count (e.name)) { printf ("TVINERR %s not-extracted\n", e.name); ++bad; continue; }
+        FnRecord* r = recs[e.name];
+        size_t unreach = 0;
+        for (auto& p : r->paths)
+        {
+            bool u = false;
+            for (auto& cv : p.conds)
+            {
+                const Cond& c = cv.first;
+                if (c.kind == C_LT || c.kind == C_LE || !cv.second) continue;
+                const Node* call = c.a->op == CALL ? c.a : c.b->op == CALL ? c.b : nullptr;
+                const Node* other = call == c.a ? c.b : c.a;
+                if (!call || other->op != LIT || other->lit != 0 || call->s.find ("length") == std::string::npos) continue;
+                bool allLit = !call->k.empty (), nonzero = false;
+                for (auto* k : call->k) { if (k->op != LIT) allLit = false; else if (k->lit != 0) nonzero = true; }
+                if (allLit && nonzero) u = true;
+            }
+            if (u) ++unreach;
+        }
+        printf ("TVINSUM %s inputs=%ld hit=%zu paths=%zu unreach_literal_length=%zu leaves=", e.name, n[e.name], hit[e.name].size (), r->paths.size (), unreach);
+        for (size_t l : hit[e.name]) printf ("%zu,", l);
+        printf ("\n");
+    }
+    // trees that are not in the table (a new branching entry must be added to it)
+    for (auto& kv : recs)
+        if (kv.second->paths.size () > 1)
+        {
+            bool listed = false;
+            for (auto& e : tvinEntries) if (kv.first == e.name) listed = true;
+            if (!listed) printf ("TVINUNLISTED %s paths=%zu\n", kv.first.c_str (), kv.second->paths.size ());
+        }
+    printf ("TVIN evaluations=%ld failures=%ld\n", evals, bad);
+    return bad ? 1 : 0;
+}
+int main (int argc, char** argv)
+{
+    if (argc > 1 && std::string (argv[1]) == "tvin") return tvin (argc, argv);
+    return symns::sym_main (argc, argv);
+}
